@@ -166,6 +166,41 @@ func selftest(verbose bool) error {
 		t.propagate(f.AnonFuncs[0].Params[0], "key bytes", true, 0)
 		expect("flow/"+tc.fn, len(t.findings) > 0, tc.bad)
 	}
+	// lock balance / pairing
+	{
+		probs, _ := d.balance()
+		badFn := map[string]bool{}
+		for _, p := range probs {
+			badFn[p.Fn.Name()] = true
+		}
+		for _, tc := range []struct {
+			fn  string
+			bad bool
+		}{{"BalOk", false}, {"OkInc", false}, {"BalBadLeak", true}, {"BalBadMismatch", true}} {
+			expect("balance/"+tc.fn, badFn[tc.fn], tc.bad)
+		}
+	}
+	// contradiction (deref of known nil), loop-variable alias
+	for _, tc := range []struct {
+		fn  string
+		bad bool
+	}{{"ContraOk", false}, {"ContraBad", true}} {
+		f := u.Func(fx, tc.fn)
+		if f == nil {
+			return fmt.Errorf("fixture %s missing", tc.fn)
+		}
+		expect("contradiction/"+tc.fn, len(knownNilDerefs(f)) > 0, tc.bad)
+	}
+	for _, tc := range []struct {
+		fn  string
+		bad bool
+	}{{"LoopAliasOk", false}, {"LoopAliasBad", true}} {
+		f := u.Func(fx, tc.fn)
+		if f == nil {
+			return fmt.Errorf("fixture %s missing", tc.fn)
+		}
+		expect("loopvar/"+tc.fn, len(loopVarAliasSites(f)) > 0, tc.bad)
+	}
 	if len(fails) > 0 {
 		return fmt.Errorf("%s", strings.Join(fails, "; "))
 	}
